@@ -46,9 +46,28 @@ Print Assumptions C20_row_neighbours.
 Theorem C20_metric_table_ok : metric_table_spec (D_metrics std_desc).
 Proof. exact metric_table_std. Qed.
 Print Assumptions C20_metric_table_ok.
-Theorem C20_absent_input_no_summary : forall d c p n name,
-  metric_value d name c p n = None -> metric_summary d (metric_value d name c p n) = None.
-Proof. intros d c p n name H. rewrite H. reflexivity. Qed.
+(* a metric is summarised IFF it has a value: no summary exactly when an input is missing / None / a
+   scalar division is undefined (eval = None) or the value is an empty sample array.  A value that is
+   exactly ZERO is a value: present inputs always yield a summary (seeded mutant C20-m2) *)
+Theorem C20_summary_iff_inputs_present : forall d e c p n,
+  metric_summary d (eval e c p n) = None <-> (eval e c p n = None \/ eval e c p n = Some (PArr [])).
+Proof. exact summary_iff_inputs_present. Qed.
+Print Assumptions C20_summary_iff_inputs_present.
+Theorem C20_scalar_ratio_present : forall c loss l e,
+  own c loss = Some (PNum l) -> own c "earned_premium" = Some (PNum e) -> ~ e == 0 ->
+  spec_ratio c loss = Some (PNum (inject_Z 100 * l / e)).
+Proof. exact scalar_ratio_present. Qed.
+Print Assumptions C20_scalar_ratio_present.
+Definition ex_zero := mkPCell 0 100 200 200 0
+  [(STR "paid_loss", PNum 0); (STR "incurred_loss", PArr [0; 0; 0]); (STR "earned_premium", PNum 1000)].
+Example C20_zero_is_summarised :
+  map fst (cell_summaries std_desc ex_zero None None)
+    = map STR ["paid_loss_ratio"; "incurred_loss_ratio"; "paid_loss"; "incurred_loss"; "earned_premium"]%string /\
+  assoc (STR "paid_loss") (cell_summaries std_desc ex_zero None None) = Some [(STR "mean", 0)] /\
+  (* the next cell's paid loss divided by a zero paid loss is undefined: no age-to-age summary *)
+  assoc (STR "paid_ata") (cell_summaries std_desc ex_zero None
+      (Some (mkPCell 0 100 200 300 3 [(STR "paid_loss", PNum 75)]))) = None.
+Proof. vm_compute. repeat split; reflexivity. Qed.
 
 (* NumPy's linear-interpolation quantile is monotone in p and lies between min and max, for every
    non-empty sample list; min / max are the ends of the sorted sample *)
